@@ -5,6 +5,12 @@
 // One case = one history.  Result = the output of every operation + the raw slot layout of the
 // final table.  Property-level oracle: the same history on a std::map.
 // Every history runs in a forked child: a hang / crash of the library is an outcome.
+// The public resize(c) is an operation of the histories ("r:<hex c>") with ANY capacity: smaller than
+// the count, equal to it, 0, 1.  Capacity 1 is the one value that leaves a full table (one slot, one
+// entry): the next look-up / deletion of an absent key does not return (TableResizeProofs.v:
+// resize_one_hangs_refuted; every other capacity is covered by table_refines_map_resize).  Such a
+// history ends as "hang" for implementation and model alike and its oracle line carries the finding key
+// resize:capacity-1-full-table; histories with "r:1" get a 2 s limit and their number per run is bounded.
 #include <algorithm>
 #include <set>
 #include <gdstk/gdstk.hpp>
@@ -304,7 +310,10 @@ static void run_case(Out& out, const std::string& kind, const std::string& paylo
     std::vector<Op> ops = parse_ops(ki, payload);
     for (size_t i = 0; i < ops.size(); i++) out.count(std::string("ops:") + kind + ":" + ops[i].t);
     out.count(std::string("histlen:") + bucket(ops.size()));
-    unsigned secs = ops.size() > 400 ? 30 : 3;
+    bool has_r1 = false;
+    for (size_t i = 0; i < ops.size(); i++) has_r1 = has_r1 || (ops[i].t == 'r' && ops[i].ku == 1);
+    if (has_r1) out.count("histories-with-resize(1)");
+    unsigned secs = ops.size() > 400 ? 30 : (has_r1 ? 2 : 3);
     std::string r = in_child(
         [&](FILE* o) {
             if (!freopen("/dev/null", "w", stderr)) {
@@ -320,8 +329,11 @@ static void run_case(Out& out, const std::string& kind, const std::string& paylo
     if (r == "HANG" || r == "PIPEFAIL" || r.compare(0, 6, "CRASH(") == 0) {
         bool hang = r == "HANG";
         out.I(id, hang ? "hang" : "crash");
-        out.P(id, "FAIL table-vs-stdmap child " + r);
-        out.count(hang ? "outcome:hang" : "outcome:crash");
+        if (hang && has_r1)
+            out.P(id, "FAIL resize:capacity-1-full-table resize(1) left a one-slot table that is full; a look-up / deletion of an absent key never returns (child " + r + ")");
+        else
+            out.P(id, "FAIL table-vs-stdmap child " + r);
+        out.count(hang ? (has_r1 ? "outcome:hang-after-resize(1)" : "outcome:hang") : "outcome:crash");
         return;
     }
     size_t l1 = r.find('\n');
@@ -444,6 +456,8 @@ static Pool make_pool(Gen& G, uint64_t c, size_t size, uint64_t t) {
     return p;
 }
 
+static long g_full_table_budget = 0;  // how many more resize(1) towards a full table this run may generate
+
 // A history under construction; tracks the live key set (to pick sizes for resize()).
 struct Hist {
     Gen& G;
@@ -480,13 +494,20 @@ struct Hist {
     void copy() { toks.push_back("y"); }
     void iter() { toks.push_back("i"); }
     void resize(uint64_t c) {
-        if (c < 2) c = 2;
+        // capacity 1 with at most one live entry ends in a full table and (most likely) a hang that costs
+        // its time limit: only a bounded number of those per run
+        if (c == 1 && live.size() <= 1) {
+            if (g_full_table_budget > 0) g_full_table_budget--;
+            else c = 2;
+        }
         toks.push_back("r:" + hex_u64(c));
-        G.out.count(c <= live.size() ? "resize:capacity<=count" : (c < 2 * live.size() ? "resize:capacity<2*count" : "resize:roomy"));
+        G.out.count(c == 0 ? "resize:capacity-0" : c == 1 ? (live.size() <= 1 ? "resize:capacity-1:full-table" : "resize:capacity-1:regrows")
+                    : c < live.size() ? "resize:capacity<count" : c == live.size() ? "resize:capacity==count"
+                    : (c < 2 * live.size() ? "resize:capacity<2*count" : "resize:roomy"));
     }
     void random_resize() {
         uint64_t n = live.size();
-        static const uint64_t fixed[] = {2, 3, 5, 7, 8, 9, 11, 16, 17, 31, 32, 64, 100};
+        static const uint64_t fixed[] = {0, 1, 3, 5, 7, 8, 9, 11, 16, 17, 31, 32, 64};
         switch (G.g.below(8)) {
             case 0: resize(n); break;
             case 1: resize(n + 1); break;
@@ -723,6 +744,70 @@ static void gen_long_sweep(Gen& G, size_t n) {
     h.run();
 }
 
+// the public resize(c) around its thresholds: a few entries, resize to 0 / 1 / 2 / below the count / the
+// count / just above / below INITIAL / INITIAL, then every kind of operation on the resized table
+static void gen_resize_edge(Gen& G) {
+    Rng& g = G.g;
+    std::set<std::string> used;
+    std::vector<std::string> keys;
+    Hist h(G);
+    size_t n = (size_t)g.below(g.chance(70) ? 6 : 14);
+    for (size_t i = 0; i < n; i++) {
+        keys.push_back(G.key_at(1, 0, used));
+        do h.set(keys.back());
+        while (!h.live.count(keys.back()));
+    }
+    if (n && g.chance(30)) h.del(keys[g.below(n)]);
+    if (g.chance(10)) h.clear();
+    size_t rounds = 1 + (size_t)g.below(3);
+    for (size_t rd = 0; rd < rounds; rd++) {
+        uint64_t m = h.live.size(), c;
+        switch (g.below(12)) {
+            case 0: c = 0; break;
+            case 1: c = 1; break;
+            case 2: c = 2; break;
+            case 3: c = m; break;
+            case 4: c = m ? m - 1 : 0; break;
+            case 5: c = m + 1; break;
+            case 6: c = m / 2; break;
+            case 7: c = 2 * m; break;
+            case 8: c = 3 + g.below(5); break;  // 3..7: below INITIAL
+            case 9: c = 8; break;
+            case 10: c = 2 * m + 1; break;
+            default: c = g.below(40);
+        }
+        h.resize(c);
+        std::string absent = G.key_at(1, 0, used);
+        unsigned what = (unsigned)g.below(100);
+        // the first operation after the resize: every kind gets its turn
+        if (what < 25) h.query(absent);
+        else if (what < 40) h.del(absent);
+        else if (what < 60) h.set(absent);
+        else if (what < 70) h.iter();
+        else if (what < 80) h.copy();
+        else if (what < 90 && !keys.empty()) h.query(keys[g.below(keys.size())]);
+        for (size_t i = 0; i < keys.size() && i < 6; i++) h.query(keys[(i * 7 + rd) % keys.size()]);
+        std::string fresh = G.key_at(1, 0, used);
+        do h.set(fresh);
+        while (!h.live.count(fresh));
+        keys.push_back(fresh);
+        h.query(absent);
+        if (g.coin()) h.del(keys[g.below(keys.size())]);
+        h.del(absent);
+        if (g.coin()) h.iter();
+        size_t extra = (size_t)g.below(12);  // grow through the next thresholds
+        for (size_t i = 0; i < extra; i++) {
+            std::string k = G.key_at(1, 0, used);
+            h.set(k);
+            keys.push_back(k);
+        }
+        if (g.chance(30)) h.copy();
+    }
+    h.iter();
+    G.out.count("shape:resize-edge");
+    h.run();
+}
+
 int main(int argc, char** argv) {
     if (argc < 4) {
         fprintf(stderr, "usage: c20_table seed tier outdir [corpus] [replay]\n");
@@ -741,12 +826,28 @@ int main(int argc, char** argv) {
     }
     for (auto& c : load_corpus(argc > 4 ? argv[4] : NULL)) run_case(out, c.first, c.second);
     Rng g(seed);
+    g_full_table_budget = thorough ? 24 : 4;
 
     // ---- deterministic families -------------------------------------------------------------
     // the empty history and single operations on a zeroed table
     for (int ki = 0; ki < 4; ki++) {
         run_case(out, KIND_NAME[ki], "");
         run_case(out, KIND_NAME[ki], ki == 1 ? "h:1 d:1 i c y i r:2 h:1" : (ki == 3 ? "g:1 d:1 i c y i r:2 g:1" : (ki == 0 ? "g:31 h:31 d:31 i c y i r:2 g:31" : "g:1 h:1 d:1 i c y i r:2 g:1 s:1:1 h:1")));
+    }
+    // the public resize(c) at its thresholds (replay of the witnesses of TableResizeProofs.v on the real tables):
+    // capacity 1 on a one-entry table / on an empty table followed by one set(): full table, the look-up of
+    // an absent key hangs; capacities 0, 2, 7 (below INITIAL: 7 slots, 4 entries, the fifth set() goes to 8
+    // slots with 5 entries), the count itself and less than the count: all fine
+    run_case(out, "map", "s:6b30:1 r:1 g:7a7a");
+    run_case(out, "set", "r:1 s:5 h:3e7");
+    run_case(out, "tagmap", "s:1:32 r:1 g:7");
+    run_case(out, "stylemap", "s:1:61 r:1 d:7");
+    run_case(out, "map", "s:6b30:1 s:6b31:2 r:1 g:7a7a g:6b30 g:6b31 i");  // two entries: the temporary table regrows
+    run_case(out, "map", "r:7 s:61:1 s:62:2 s:63:3 s:64:4 s:65:5 g:61 g:7a i s:66:6 i");
+    run_case(out, "map", "s:61:1 s:62:2 s:63:3 s:64:4 s:65:5 s:66:6 r:3 g:61 g:66 g:7a i r:6 i r:0 i g:63 d:63 r:0 i");
+    for (int ki = 0; ki < 4; ki++) {
+        const char* e = ki == 0 ? "g:31" : ki == 3 ? "g:1" : "h:1";
+        run_case(out, KIND_NAME[ki], std::string("r:0 ") + e + " d:1 i y r:0 c r:0 " + e + " r:2 " + e + " r:0 i");
     }
     // growth straddling, short: every n in 0..40 for every kind
     for (size_t n = 0; n <= 40; n++)
@@ -810,6 +911,17 @@ int main(int argc, char** argv) {
         if (r < 55) gen_mix(G);
         else if (r < 85) gen_fill_del(G);
         else gen_resize_first(G);
+    }
+    // ---- the public resize(c) around its thresholds (own stream: the histories above stay what they were)
+    {
+        Rng g2(seed * 0x100000001B3ULL + 12345);
+        long NR = thorough ? 8000 : 400;
+        for (long i = 0; i < NR; i++) {
+            unsigned r = (unsigned)g2.below(100);
+            int ki = r < 40 ? 0 : r < 60 ? 1 : r < 80 ? 2 : 3;
+            Gen G(g2, out, ki);
+            gen_resize_edge(G);
+        }
     }
     out.close();
     return 0;
